@@ -15,6 +15,7 @@ From Coq Require Import NArith ZArith List Bool.
 From Tinode Require Import Pure.Url Pure.UrlProofs Sys.Files Sys.FilesGateProofs Sys.FilesStoreProofs.
 From Tinode Require Import Sys.FilesSaveC16b Sys.FilesSaveC16bProofs.
 From Tinode Require Import Sys.FilesServeC16c Sys.FilesServeC16cProofs Sys.FilesDescC16c Sys.FilesDescC16cProofs.
+From Tinode Require Import Sys.FilesAccC16c Sys.FilesAccC16cProofs.
 Import ListNotations.
 
 (* ------------------------------------------------------------------ *)
@@ -882,6 +883,42 @@ Proof.
   exact (linked_In _ _ _ Hin).
 Qed.
 Print Assumptions c16_set_desc_ok_linked_partial.
+
+(* ---- account creation ({acc user="new"}, Sys/FilesAccC16c.v: AuthGetUniqueRecord ; UserCreate ; TopicShare ;
+   AuthAddRecord ; [credentials] ; FileLinkAttachments - the link call LAST; a failure after UserCreate deletes
+   the account again) ---- *)
+
+(* an {acc user="new"} that does not create the account (whatever its reply code: the AddRecord failure is
+   answered 200 by the code as it is, see FilesAccC16c.v) - IsUnique, UserCreate, the me/fnd subscriptions, AddRecord or the credentials
+   failing, in the state reached by ANY history, for a fresh account id - leaves upload records, link rows,
+   bytes, topics and users exactly as they were, and FileLinkAttachments was not called *)
+Theorem c16_create_user_refused_no_effect : forall h ft handler serve cl uid creds_ok urls,
+  let s := {| aa_fs := run h; aa_calls := cl |} in
+  memN uid (users (run h)) = false ->
+  ao_created (snd (create_user_c16c ft handler serve s uid creds_ok urls)) = false ->
+  aa_fs (fst (create_user_c16c ft handler serve s uid creds_ok urls)) = run h /\
+  forall b, ~ In (AFileLinkC16c, b) (acc_calls_c16c ft handler serve creds_ok urls).
+Proof. exact create_user_refused. Qed.
+Print Assumptions c16_create_user_refused_no_effect.
+
+(* whether the account exists afterwards, the reply code, the adapter calls in the order they are made (compared with memverif's call log on every generated
+   account creation), and the file slice: account creation followed by the avatar operation of the history model *)
+Theorem c16_create_user_calls : forall ft handler serve s uid creds_ok urls,
+  let r := create_user_c16c ft handler serve s uid creds_ok urls in
+  (ao_created (snd r) = false <-> acc_refused_c16c ft creds_ok = true) /\
+  ao_code (snd r) = acc_code_c16c ft creds_ok /\
+  rev (aa_calls (fst r)) = rev (aa_calls s) ++ acc_calls_c16c ft handler serve creds_ok urls /\
+  (ao_created (snd r) = true ->
+   aa_fs (fst r) =
+     (if acc_link_due_c16c handler serve urls && negb (af_link ft)
+      then step (step (aa_fs s) (OAddUser uid)) (OUserAvatar uid (resolve serve urls))
+      else step (aa_fs s) (OAddUser uid))).
+Proof.
+  intros ft handler serve s uid creds_ok urls r.
+  destruct (create_user_char ft handler serve s uid creds_ok urls) as [O [K [C _]]].
+  exact (conj O (conj K (conj C (create_user_created ft handler serve s uid creds_ok urls)))).
+Qed.
+Print Assumptions c16_create_user_calls.
 
 (* ------------------------------------------------------------------ *)
 (* non-vacuity                                                          *)
